@@ -26,6 +26,7 @@ type Config struct {
 	Dirty     bool // spare capacity is pre-filled with 0xAA
 	FailAt    int  // fail the n-th Allocate call (1-based); 0 = never
 	FirstCap  int  // capacity in bytes of the first segment (0 = policy)
+	OddCap    int  // 0..7 bytes added to every capacity: buffers whose capacity is not a whole number of words
 }
 
 type Arena struct {
@@ -59,7 +60,9 @@ func (a *Arena) dirty(b []byte) {
 	}
 }
 
-func (a *Arena) capFor(minsz int) int {
+func (a *Arena) capFor(minsz int) int { return a.capFor0(minsz) + a.Cfg.OddCap }
+
+func (a *Arena) capFor0(minsz int) int {
 	need := (minsz + 7) &^ 7
 	switch a.Cfg.Slack {
 	case 0:
@@ -116,7 +119,7 @@ func (a *Arena) Allocate(minsz capnp.Size, segs map[capnp.SegmentID]*capnp.Segme
 	}
 	c := a.capFor(need)
 	if len(a.segs) == 0 && a.Cfg.FirstCap > c {
-		c = a.Cfg.FirstCap
+		c = a.Cfg.FirstCap + a.Cfg.OddCap
 	}
 	buf := make([]byte, 0, c)
 	a.dirty(buf)
